@@ -65,11 +65,14 @@ class Pop:
         self.names = list(self.groups[0].keys())
         self.idx = {n: k for k, n in enumerate(self.names)}
         self.vid = 1000
+        # a target is re-synchronised on every copy only while the algorithm registers the hook doing it
+        hooks = [getattr(h, "__name__", str(h)) for h in getattr(root.registry, "hooks", [])]
+        self.resync = RESYNC.get(algo, {}) if any("init_hook" in h for h in hooks) else {}
         specs = []
         for n in self.names:
             g = self.groups[0][n]
             tok = g["kind"]
-            src = RESYNC.get(algo, {}).get(n)
+            src = self.resync.get(n)
             if src is not None:
                 tok = f"tgt{self.idx[src]}"
             specs.append(tok)
@@ -189,7 +192,7 @@ class Pop:
                                           f"{self.algo}.clone() re-initialises {n}: child differs from parent"))
                     self.lines.append(f"heap rebind {mi} {self.idx[n]} {self.fresh()}")
                 continue
-            src = RESYNC.get(self.algo, {}).get(n)
+            src = self.resync.get(n)
             want = pv[src] if src is not None else pv[n]
             # a re-synchronised target must equal the parent's online net: compare tensor lists
             if src is not None:
